@@ -49,6 +49,7 @@ type c20Conf struct {
 	Env      map[string]string `json:"env"`
 	Extra    map[string]string `json:"extra_env,omitempty"` // variables only ReadConfig (viper) looks at
 	File     *string           `json:"config_file"`         // the JSON text written to the -config file (nil = no file)
+	Mode     string            `json:"mode,omitempty"`      // MODE of the process ("" = reader, the only mode with query routes that starts without ClickHouse)
 	Request  *c20ConfReq       `json:"request,omitempty"`
 	Note     string            `json:"note,omitempty"`
 	Hex      map[string]string `json:"hex,omitempty"` // exact bytes of every value (JSON strings cannot carry arbitrary bytes)
@@ -89,7 +90,18 @@ type c20ConfReq struct {
 	Auth   *string `json:"authorization"`
 	Status int     `json:"status"`
 	Hung   bool    `json:"no_answer_handler_waiting_for_database,omitempty"`
+	Note   string  `json:"note,omitempty"`
 }
+
+func (c *c20Conf) mode() string {
+	if c.Mode == "" {
+		return "reader"
+	}
+	return c.Mode
+}
+
+// the routes the harness itself knows to be registered in the process' mode (oracle side; not from the model)
+var c20CommonRoutes = map[string]bool{"/ready": true, "/config": true, "/metrics": true, "/api/status/buildinfo": true}
 
 func c20s(p *string) string {
 	if p == nil {
@@ -488,6 +500,66 @@ func c20PortEnv(r *h.Result, rng *h.Rng, n int) error {
 
 // ---------------------------------------------------------------- config stream (the real binary)
 
+var c20PortMu sync.Mutex
+var c20PortsUsed = map[int]bool{}
+
+// c20FreePort: a free port that no other configuration of this run was given (the starts run in parallel)
+func c20FreePort() (int, error) {
+	c20PortMu.Lock()
+	defer c20PortMu.Unlock()
+	for i := 0; i < 50; i++ {
+		l, err := net.Listen("tcp", "127.0.0.1:0")
+		if err != nil {
+			return 0, err
+		}
+		port := l.Addr().(*net.TCPAddr).Port
+		l.Close()
+		if !c20PortsUsed[port] {
+			c20PortsUsed[port] = true
+			return port, nil
+		}
+	}
+	return 0, fmt.Errorf("no unused port found")
+}
+
+// c20ListeningPorts: the TCP ports the process pid listens on (Linux: socket inodes of /proc/pid/fd looked up in
+// /proc/pid/net/tcp{,6}, state 0A = LISTEN)
+func c20ListeningPorts(pid int) []int {
+	inodes := map[string]bool{}
+	fds, err := os.ReadDir(fmt.Sprintf("/proc/%d/fd", pid))
+	if err != nil {
+		return nil
+	}
+	for _, fd := range fds {
+		if t, err := os.Readlink(fmt.Sprintf("/proc/%d/fd/%s", pid, fd.Name())); err == nil && strings.HasPrefix(t, "socket:[") {
+			inodes[strings.TrimSuffix(strings.TrimPrefix(t, "socket:["), "]")] = true
+		}
+	}
+	seen := map[int]bool{}
+	var ports []int
+	for _, f := range []string{"tcp", "tcp6"} {
+		b, err := os.ReadFile(fmt.Sprintf("/proc/%d/net/%s", pid, f))
+		if err != nil {
+			continue
+		}
+		for _, line := range strings.Split(string(b), "\n")[1:] {
+			fl := strings.Fields(line)
+			if len(fl) < 10 || fl[3] != "0A" || !inodes[fl[9]] {
+				continue
+			}
+			i := strings.LastIndexByte(fl[1], ':')
+			var port int
+			fmt.Sscanf(fl[1][i+1:], "%X", &port)
+			if !seen[port] {
+				seen[port] = true
+				ports = append(ports, port)
+			}
+		}
+	}
+	sort.Ints(ports)
+	return ports
+}
+
 type c20Probe struct {
 	status int
 	hung   bool
@@ -495,8 +567,16 @@ type c20Probe struct {
 }
 
 func c20RawProbe(addr, method, path string, auth *string, id int, wait time.Duration) c20Probe {
+	return c20RawProbeHdr(addr, method, path, auth, id, wait, "Connection: close\r\n")
+}
+
+func c20RawProbeHdr(addr, method, path string, auth *string, id int, wait time.Duration, extra string) c20Probe {
 	var b strings.Builder
-	fmt.Fprintf(&b, "%s %s?vq=%d HTTP/1.1\r\nHost: %s\r\nConnection: close\r\n", method, path, id, addr)
+	sep := "?"
+	if strings.Contains(path, "?") {
+		sep = "&"
+	}
+	fmt.Fprintf(&b, "%s %s%svq=%d HTTP/1.1\r\nHost: %s\r\n%s", method, path, sep, id, addr, extra)
 	if auth != nil {
 		fmt.Fprintf(&b, "Authorization: %s\r\n", *auth)
 	}
@@ -533,6 +613,9 @@ type c20ConfResult struct {
 	startErr  error
 	noCred    []c20ConfReq
 	wrong     *c20ConfReq
+	upgrade   *c20ConfReq
+	listeners []int        // TCP ports the process listens on
+	extra     []c20ConfReq // requests without credentials to listeners other than the configured one
 	pairs     int
 	passing   [][2]string
 	probes    int
@@ -551,13 +634,11 @@ func c20RunConf(bin, dir string, idx int, c *c20Conf, routes []c20Route, only *c
 		}
 		args = append(args, "-config", p)
 	}
-	l, err := net.Listen("tcp", "127.0.0.1:0")
+	port, err := c20FreePort()
 	if err != nil {
 		res.startErr = err
 		return res
 	}
-	port := l.Addr().(*net.TCPAddr).Port
-	l.Close()
 	logf, err := os.Create(filepath.Join(dir, fmt.Sprintf("server%d.log", idx)))
 	if err != nil {
 		res.startErr = err
@@ -568,7 +649,7 @@ func c20RunConf(bin, dir string, idx int, c *c20Conf, routes []c20Route, only *c
 	cmd.Dir = dir
 	cmd.Stdout, cmd.Stderr = logf, logf
 	// the environment is built from scratch: a variable that is not part of the configuration is ABSENT
-	cmd.Env = []string{"PATH=" + os.Getenv("PATH"), "HOME=" + dir, "key=true", "OMIT_CREATE_TABLES=true", "MODE=reader",
+	cmd.Env = []string{"PATH=" + os.Getenv("PATH"), "HOME=" + dir, "key=true", "OMIT_CREATE_TABLES=true", "MODE=" + c.mode(),
 		fmt.Sprintf("PORT=%d", port), "HOST=127.0.0.1", "CLICKHOUSE_SERVER=127.0.0.1", "CLICKHOUSE_PORT=1"}
 	for k, v := range c.Env {
 		cmd.Env = append(cmd.Env, k+"="+v)
@@ -580,10 +661,33 @@ func c20RunConf(bin, dir string, idx int, c *c20Conf, routes []c20Route, only *c
 		res.startErr = err
 		return res
 	}
-	defer func() { cmd.Process.Kill(); cmd.Wait() }()
+	exited := make(chan struct{})
+	go func() { cmd.Wait(); close(exited) }()
+	defer func() {
+		// answers only count if they came from THIS process: it must still be running when the probes are done
+		select {
+		case <-exited:
+			if res.startErr == nil {
+				b, _ := os.ReadFile(logf.Name())
+				if len(b) > 1200 {
+					b = b[len(b)-1200:]
+				}
+				res.startErr = fmt.Errorf("the built binary exited while it was probed (%s):\n%s", c.sources(), b)
+			}
+		default:
+		}
+		cmd.Process.Kill()
+		<-exited
+	}()
 	addr := fmt.Sprintf("127.0.0.1:%d", port)
 	up := false
 	for i := 0; i < 200 && !up; i++ {
+		select {
+		case <-exited:
+			i = 200
+			continue
+		default:
+		}
 		if cn, err := net.DialTimeout("tcp", addr, 200*time.Millisecond); err == nil {
 			cn.Close()
 			up = true
@@ -636,9 +740,22 @@ func c20RunConf(bin, dir string, idx int, c *c20Conf, routes []c20Route, only *c
 		}
 		q := probe(x.methods[0], c20VarRe.ReplaceAllString(x.tpl, "x1"), nil, 800*time.Millisecond)
 		res.noCred = append(res.noCred, q)
-		if q.Status != 401 {
+		if q.Status != 401 && q.Status != 404 && q.Status != 405 {
 			anomalies++
 		}
+	}
+	if expectGuarded && anomalies == 0 && c.mode() == "reader" {
+		// the websocket tail: an upgrade request without credentials must be refused before the upgrade
+		q := c20ConfReq{Method: "GET", Path: "/loki/api/v1/tail", Note: "websocket upgrade"}
+		id++
+		res.probes++
+		p := c20RawProbeHdr(addr, "GET", "/loki/api/v1/tail?query=%7Ba%3D%22b%22%7D", nil, id, 800*time.Millisecond,
+			"Connection: Upgrade\r\nUpgrade: websocket\r\nSec-WebSocket-Version: 13\r\nSec-WebSocket-Key: dGhlIHNhbXBsZSBub25jZQ==\r\n")
+		q.Status, q.Hung = p.status, p.hung
+		if p.err != nil {
+			q.Status = -1
+		}
+		res.upgrade = &q
 	}
 	// B. wrong credentials, then every combination of the supplied values
 	w := probe("GET", "/ready", c20Basic("nobody", "nothing"), 1500*time.Millisecond)
@@ -650,6 +767,29 @@ func c20RunConf(bin, dir string, idx int, c *c20Conf, routes []c20Route, only *c
 			if q.Status != 401 && q.Status != 400 {
 				res.passing = append(res.passing, [2]string{lg, pw})
 			}
+		}
+	}
+	// C. every listener of the process other than the configured one, without credentials
+	res.listeners = c20ListeningPorts(cmd.Process.Pid)
+	for _, lp := range res.listeners {
+		if lp == port {
+			continue
+		}
+		paths := []string{"/", "/debug/pprof/", "/debug/vars", "/ready", "/metrics", "/config"}
+		for _, x := range routes {
+			if len(paths) < 24 {
+				paths = append(paths, c20VarRe.ReplaceAllString(x.tpl, "x1"))
+			}
+		}
+		for _, pth := range paths {
+			id++
+			res.probes++
+			p := c20RawProbe(fmt.Sprintf("127.0.0.1:%d", lp), "GET", pth, nil, id, 800*time.Millisecond)
+			q := c20ConfReq{Method: "GET", Path: pth, Status: p.status, Hung: p.hung, Note: fmt.Sprintf("second listener of the process, port %d (configured port %d)", lp, port)}
+			if p.err != nil {
+				q.Status = -1
+			}
+			res.extra = append(res.extra, q)
 		}
 	}
 	switch {
@@ -694,24 +834,23 @@ func c20FixedConfs() []*c20Conf {
 		mk(sp("fuser"), sp("fpass"), map[string]string{"QRYN_LOGIN": "", "QRYN_PASSWORD": "q:pa ss"}, "set-but-empty QRYN_LOGIN keeps the file's login"),
 		mk(nil, nil, map[string]string{"QRYN_LOGIN": "quser"}, "a login and no password anywhere: nothing to install"),
 		mk(nil, nil, nil, "nothing configured"),
+		func() *c20Conf {
+			c := mk(nil, sp("fpass"), map[string]string{"QRYN_LOGIN": "quser"}, "a MODE in which neither writer.Init nor reader.Init runs: the common routes are still guarded")
+			c.Mode = "gateway"
+			return c
+		}(),
 	}
 }
 
 func c20Config(r *h.Result, rng *h.Rng, nRandom int) error {
-	r.Stream("config: the real binary (MODE=reader), one start per configuration — JSON config file (auth_settings.basic.username/password present/absent/empty) × environment built from scratch (QRYN_LOGIN, CLOKI_LOGIN, QRYN_PASSWORD, CLOKI_PASSWORD absent/empty/set; mixed sources first) — probed over raw HTTP: every common+reader route without credentials, wrong credentials, every supplied-login × supplied-password combination on /ready; vs main()'s guard over the interpreted plan (c20inst)")
-	bin, err := c20MainBinary(false)
-	if err != nil {
-		return err
-	}
-	rt, err := c20Assemble("acr", "x", "y") // only to enumerate the common + reader table
-	if err != nil {
-		return err
-	}
 	confs := c20FixedConfs()
 	for i := 0; i < nRandom; i++ {
 		c := c20GenConf(rng, false)
 		c.Stream = "config"
 		c.File = c20FileJSON(c.FileUser, c.FilePass)
+		if rng.Chance(15) {
+			c.Mode = h.Pick(rng, []string{"gateway", "READER", "init"})
+		}
 		confs = append(confs, c)
 	}
 	if nRandom > 8 {
@@ -720,6 +859,38 @@ func c20Config(r *h.Result, rng *h.Rng, nRandom int) error {
 			Extra: map[string]string{"QRYN_AUTH_SETTINGS_BASIC_USERNAME": "vuser"}, Note: "viper env over a file key + CLOKI_PASSWORD"}
 		c.File = c20FileJSON(c.FileUser, c.FilePass)
 		confs = append(confs, c)
+	}
+	return c20ConfigRun(r, confs)
+}
+
+// c20ConfigRun starts the real binary once per configuration (6 at a time), probes, judges and compares
+func c20ConfigRun(r *h.Result, confs []*c20Conf) error {
+	r.Stream("config: the real binary (unmodified build; MODE=reader and MODEs in which no Init runs), one start per configuration — JSON config file (auth_settings.basic.username/password present/absent/empty) × environment built from scratch (QRYN_LOGIN, CLOKI_LOGIN, QRYN_PASSWORD, CLOKI_PASSWORD absent/empty/set; mixed sources first) — probed over raw HTTP: every route of the whole table without credentials, the websocket upgrade of the tail route, wrong credentials, every supplied-login × supplied-password combination on /ready, every other TCP listener of the process; vs main()'s guard over the interpreted plan (c20inst) and, per request, configuration → installed middleware → route table of the MODE → mux model (c20servemode)")
+	bin, err := c20MainBinary(false)
+	if err != nil {
+		return err
+	}
+	rt, err := c20Assemble("ac", "x", "y") // only to enumerate the whole table (common, writer, reader)
+	if err != nil {
+		return err
+	}
+	rtr, err := c20Assemble("acr", "x", "y") // what the harness knows to be registered with MODE=reader (oracle side)
+	if err != nil {
+		return err
+	}
+	readerKnown := map[string]bool{}
+	for _, x := range rtr.routes {
+		readerKnown[x.methods[0]+" "+x.tpl] = true
+	}
+	mustGuard := func(c *c20Conf, q c20ConfReq) bool {
+		for _, x := range rt.routes {
+			if c20VarRe.ReplaceAllString(x.tpl, "x1") == q.Path && x.methods[0] == q.Method {
+				if c20CommonRoutes[x.tpl] || (c.mode() == "reader" && readerKnown[x.methods[0]+" "+x.tpl]) {
+					return true
+				}
+			}
+		}
+		return false
 	}
 	dir := filepath.Join(c20BinDir, "conf")
 	os.MkdirAll(dir, 0o755)
@@ -733,6 +904,9 @@ func c20Config(r *h.Result, rng *h.Rng, nRandom int) error {
 			defer wg.Done()
 			defer func() { <-sem }()
 			results[i] = c20RunConf(bin, dir, i, confs[i], rt.routes, nil)
+			if results[i].startErr != nil {
+				results[i] = c20RunConf(bin, dir, i, confs[i], rt.routes, nil)
+			}
 		}(i)
 	}
 	wg.Wait()
@@ -750,12 +924,37 @@ func c20Config(r *h.Result, rng *h.Rng, nRandom int) error {
 			cc.Request = &q
 			return &cc
 		}
+		for _, q := range res.noCred {
+			// model: configuration → installed middleware → the route table of the MODE → this request
+			f := c.fileCreds()
+			ops = append(ops, fmt.Sprintf("c20servemode %s %s %s %s %s %s none", h.Hex([]byte(c.mode())), h.Hex([]byte(f[0])), h.Hex([]byte(f[1])), c.envSpec(), q.Method, h.Hex([]byte(q.Path))))
+			switch q.Status {
+			case 401, 400, 404, 405, 301:
+				impl = append(impl, fmt.Sprint(q.Status))
+			default:
+				impl = append(impl, "reached")
+			}
+			cases = append(cases, withReq(q))
+			r.Case(fmt.Sprintf("config-route:%s:%s:%s %s", c.mode(), c.sources(), q.Method, q.Path), guarded)
+		}
 		if guarded {
-			for _, q := range res.noCred {
-				if q.Status != 401 {
+			probes := res.noCred
+			if res.upgrade != nil {
+				probes = append(append([]c20ConfReq{}, probes...), *res.upgrade)
+			}
+			for _, q := range probes {
+				served := q.Status != 401 && q.Status != 404 && q.Status != 405
+				if served || (q.Status != 401 && (q.Note != "" || mustGuard(c, q))) {
 					r.Violate("C20/config-route-served-without-credentials",
-						fmt.Sprintf("real binary, sources %s (a login and a password were supplied): %s %s WITHOUT credentials answered %d%s, not 401",
-							c.sources(), q.Method, q.Path, q.Status, map[bool]string{true: " (no answer: the handler is waiting for the database)", false: ""}[q.Hung]), withReq(q))
+						fmt.Sprintf("real binary, MODE=%s, sources %s (a login and a password were supplied): %s %s %s WITHOUT credentials answered %d%s, not 401",
+							c.mode(), c.sources(), q.Method, q.Path, q.Note, q.Status, map[bool]string{true: " (no answer: the handler is waiting for the database)", false: ""}[q.Hung]), withReq(q))
+					break
+				}
+			}
+			for _, q := range res.extra {
+				if q.Status >= 0 && q.Status != 401 && q.Status != 400 && q.Status != 404 && q.Status != 405 {
+					r.Violate("C20/second-listener-serves-without-credentials",
+						fmt.Sprintf("real binary, sources %s (a login and a password were supplied): %s — GET %s WITHOUT credentials answered %d", c.sources(), q.Note, q.Path, q.Status), withReq(q))
 					break
 				}
 			}
@@ -777,7 +976,8 @@ func c20Config(r *h.Result, rng *h.Rng, nRandom int) error {
 		cases = append(cases, c)
 		r.Case("config:"+c.sources(), c.mixed())
 		r.CountN("config:http-probes", res.probes)
-		r.Count(fmt.Sprintf("config:guarded=%v:mixed=%v", guarded, c.mixed()))
+		r.Count(fmt.Sprintf("config:tcp-listeners-of-the-process=%d", len(res.listeners)))
+		r.Count(fmt.Sprintf("config:mode=%s:guarded=%v:mixed=%v", c.mode(), guarded, c.mixed()))
 		if i < 2 {
 			r.Sample(map[string]any{"stream": "config", "case": c, "installed": res.inst, "probes": res.probes})
 		}
@@ -811,33 +1011,9 @@ func c20ConfigReplay(r *h.Result, raw json.RawMessage) error {
 		r.Case("replay", true)
 		return r.Compare("portenv", []string{c.op("c20eff")}, got, []any{&c})
 	case "config":
-		bin, err := c20MainBinary(false)
-		if err != nil {
-			return err
-		}
-		rt, err := c20Assemble("acr", "x", "y")
-		if err != nil {
-			return err
-		}
-		dir := filepath.Join(c20BinDir, "conf")
-		os.MkdirAll(dir, 0o755)
-		res := c20RunConf(bin, dir, 0, &c, rt.routes, c.Request)
-		if res.startErr != nil {
-			return res.startErr
-		}
-		logins, passes := c.supplied()
+		c.Request = nil
 		r.Case("replay", true)
-		if c.Request != nil {
-			q := res.noCred[0]
-			fmt.Printf("replay: sources %s: %s %s authorization=%v -> %d hung=%v\n", c.sources(), q.Method, q.Path, q.Auth != nil, q.Status, q.Hung)
-			if len(logins) > 0 && len(passes) > 0 && q.Auth == nil && q.Status != 401 {
-				cc := c
-				cc.Request = &q
-				r.Violate("C20/config-route-served-without-credentials", fmt.Sprintf("real binary, sources %s: %s %s without credentials answered %d", c.sources(), q.Method, q.Path, q.Status), &cc)
-			}
-			return nil
-		}
-		return r.Compare("config", []string{c.op("c20inst")}, []string{res.inst}, []any{&c})
+		return c20ConfigRun(r, []*c20Conf{&c})
 	}
 	return fmt.Errorf("replay of stream %q not supported", c.Stream)
 }
